@@ -42,7 +42,7 @@ elif git -C /repo apply --check $DST/patch.diff; then
 else
   echo "patch does not apply to /repo"
 fi
-git -C /verif checkout -- evidence coq/Model/Schemas.v coq/Model/UnitTable.v 2>/dev/null
+git -C /verif checkout -- evidence coq/Model/Schemas.v coq/Model/UnitTable.v coq/Model/Enums.v 2>/dev/null
 rm -f /verif/replays/*.json
 python3 - <<PY
 import json
